@@ -26,6 +26,14 @@ CRITS = ['ApproxKKT', 'ApproxKKT2', 'ProjGradNorm', 'ProjGradNorm2', 'ProjGradUn
          'ProjGradUnitNorm2', 'FPRNorm', 'FPRNorm2', 'Ipopt', 'LBFGSBpp']
 
 
+def init_sweep_overrides(rng):
+    """Overrides for the first base run of every stop-injection sweep: a user L_0 far below the
+    curvature of the generated problems (2^-4 … 2^-10) and no cap on L, so that the *initial*
+    step-size loop backtracks many times and `stopat` = every tick of the sweep lands inside it
+    (the loop polls the stop flag: C19, fixes/C19-init-loop-stop-poll.diff)."""
+    return {'L0': C.f2h(2.0 ** -rng.randint(4, 10)), 'Lmax': C.f2h(1e20), 'Lmin': C.f2h(1e-5)}
+
+
 def build_harness():
     srcs = [os.path.join(C.VERIF, 'harness', s) for s in HARNESS_SOURCES]
     return C.build_exe('solvers', srcs + C.repo_lib_sources(LIB_SUBSET))
